@@ -165,18 +165,26 @@ def rule_no_write(ctx, E):
     ctx.rule('R1', 'no write through an operand (public non-in-place operations x option specialisations)', 80)
     import re
     ops = public_operations(ctx)
+    # constructors: building an object from existing arrays / axes must not write into them (writes to the new object itself are the point)
+    ctors = []
+    for cq in (DIMARRAY, DATASET, AXIS, AXES, 'dimarray.core.axes.MultiAxis', 'dimarray.dataset.DatasetAxes'):
+        try:
+            ctors.append(('%s(...) [constructor]' % cq.rsplit('.', 1)[-1], ctx.P.method(cq, '__init__')))
+        except AnalysisError:
+            pass
     n_cfg = 0
     by_primitive = {}
-    for label, fi in ops:
+    for label, fi in ops + ctors:
         ctx.functions.add(fi.qualname)
         bad = {}
+        is_ctor = label.endswith('[constructor]')
         for cfg in configs(fi):
             n_cfg += 1
             s = E.summary(fi, cfg)
             for note in s.notes:
                 ctx.undecide('R1', '%s: %s' % (label, note))
             for p, wit in s.mutates.items():
-                if p.startswith('*') or p in NON_OPERANDS:
+                if p.startswith('*') or p in NON_OPERANDS or (is_ctor and p == fi.params[0]):
                     continue
                 bad.setdefault(p, (cfg, wit))
         if bad:
